@@ -1,6 +1,7 @@
 import Driver.PathFn
 import Driver.CoreFn
 import Driver.MemfsFn
+import Rivia.Model.Conc
 
 open Driver Rivia
 
@@ -18,6 +19,14 @@ def handle (sess : Sess) (line : String) : String × Sess :=
         | some env => ("ok new", { st := Memfs.init, env := env, dead := false })
         | none => ("bad-op", sess)
       | _ => ("bad-op", sess)
+    else if fn = "sections" then
+      match args with
+      | f :: rest => match parseOp f rest with
+        | some op => (match Rivia.Conc.sections op with
+          | some l => (String.join (l.map fun k => match k with | .R => "R" | .W => "W") ++ "\t-\t-", sess)
+          | none => ("?\t-\t-", sess))
+        | none => ("bad-op", sess)
+      | [] => ("bad-op", sess)
     else
     match pathFn fn args with
     | some r => (r, sess)
